@@ -808,7 +808,13 @@ func (w *world) stateKey() string {
 					if a > 2 {
 						a = 2
 					}
-					l = append(l, fmt.Sprintf("(%d,%d,%d)", a, in.Vout, c.Value))
+					txidx, nouts := -1, 0
+					for i, t := range w.m.Path(n)[c.Height-1].Block.Txs {
+						if t.TxID() == in.Prev {
+							txidx, nouts = i, len(t.Out)
+						}
+					}
+					l = append(l, fmt.Sprintf("(%d,%d,%d,%d,%d)", a, txidx, in.Vout, nouts, c.Value))
 				}
 			}
 		}
@@ -1108,7 +1114,10 @@ type explorer struct {
 	r    *ev.Run
 	sem  chan struct{}
 	mu   sync.Mutex
+	pmu  sync.Mutex
 	pdir map[int]string
+
+	rebuilt int
 
 	transitions, oracles, nontriv, reorgs, mapRep, confirmed, states int
 	perEvent                                                         map[string]int
@@ -1121,7 +1130,29 @@ type explorer struct {
 func (x *explorer) run(focus int, evs []string) *Result {
 	x.sem <- struct{}{}
 	defer func() { <-x.sem }()
-	return runWorker(&Job{Prefix: x.pdir[focus], Focus: focus, Events: evs})
+	return x.exec(focus, evs)
+}
+
+// exec runs one history; an infrastructure failure is retried once, after rebuilding
+// the prefix directory if it disappeared (scratch space is shared with other runs).
+func (x *explorer) exec(focus int, evs []string) *Result {
+	for attempt := 0; ; attempt++ {
+		x.pmu.Lock()
+		dir := x.pdir[focus]
+		x.pmu.Unlock()
+		res := runWorker(&Job{Prefix: dir, Focus: focus, Events: evs})
+		if res.Harness == "" || attempt >= 1 {
+			return res
+		}
+		x.pmu.Lock()
+		if x.pdir[focus] == dir {
+			if _, err := os.Stat(dir + "/prefix.json"); err != nil {
+				x.pdir[focus] = buildPrefix(focus)
+				x.rebuilt++
+			}
+		}
+		x.pmu.Unlock()
+	}
 }
 
 func (x *explorer) runLevel(focus int, tasks []*task) {
@@ -1135,7 +1166,7 @@ func (x *explorer) runLevel(focus int, tasks []*task) {
 		go func(t *task) {
 			defer wg.Done()
 			defer func() { <-x.sem }()
-			t.res = runWorker(&Job{Prefix: x.pdir[focus], Focus: focus, Events: t.events()})
+			t.res = x.exec(focus, t.events())
 		}(t)
 	}
 	wg.Wait()
@@ -1338,6 +1369,7 @@ func main() {
 		"per_focus":                     x.perFocus,
 		"depth_completed":               x.depthDone,
 		"violations_confirmed_3x":       x.confirmed,
+		"prefix_dirs_rebuilt":           x.rebuilt,
 		"worker_cpu_s":                  float64(atomic.LoadInt64(&workerCPU)/1e7) / 100,
 		"samples":                       x.samples.L,
 		"rule": "BFS over event histories per focus address type (P2PKH, P2SH, P2WPKH, P2WSH, P2TR, non-standard; all other types present as static background outputs); every history runs in a fresh worker process on a copy of a 105-block chain; " +
